@@ -300,6 +300,9 @@ func init() {
 				} else if i%12 == 10 {
 					prog = g.cappedWorldThenProgram()
 					c.count("directed:cappedWorldThen")
+				} else if i%12 == 4 {
+					prog = g.zeroTwinsProgram()
+					c.count("directed:zeroTwins")
 				} else {
 					prog = g.Program()
 				}
